@@ -112,6 +112,7 @@ inductive Op
   | fetchVia (batch : Bool) (k : Int) (asIndex : Bool)   -- get_stored_frames([k]) / get_stored_frame(k)
   | whole                                     -- .pixel_array
   | replace (pd : List Nat)                   -- ds['PixelData'].value = …
+  | scribble (i : Nat)                        -- the caller overwrites, in place, frame `i` as an earlier cached fetch returned it
   deriving Repr
 
 variable {α : Type}
@@ -155,6 +156,11 @@ def step (one : List Nat → Int → Bool → Except ErrKind α) (all : List Nat
     | .ok (s', _) => s'
     | .error _ => s
   | .replace pd => { s with pd := pd }
+  | .scribble i =>
+    -- results of the cached branch are copies iff the source says so (regenerated: `singleCachedIsCopy`, T1b; the batch method
+    -- always stacks into a new array: `batchCachedIsCopy`); a view would let the caller's write reach the cached array
+    if singleCachedIsCopy && batchCachedIsCopy then s
+    else { s with cache := s.cache.map fun c => (c.1, c.2.eraseIdx i) }
 
 def run (one : List Nat → Int → Bool → Except ErrKind α) (all : List Nat → Except ErrKind (List α)) (n : Int)
     (s : Img α) (ops : List Op) : Img α := ops.foldl (step one all n) s
